@@ -482,6 +482,8 @@ class Executor:
             ty, vn = enum_name_of(name)
             if ty in self.enums and vn in self.enums[ty]:
                 return mk_enum(ty, vn, vals)
+            if re.search(r"(^|::)ops::Range(::<.*>)?$", name):
+                return Agg("iter:range", vals)
             return Agg("struct:" + ctor_strip_generics(name).split("::")[-1], vals)
         if kind == "ctor":
             vals = [self.eval_operand(st, f) for f in fields]
@@ -565,6 +567,22 @@ class Executor:
         raise Unsupported("unresolved callee: %s" % c)
 
     def find_mir(self, c, args, st):
+        # drop a trailing turbofish on the method:  ...::set_sampled::<Mcg128Xsl64>
+        while c.endswith(">"):
+            d = 0
+            cut = None
+            for i in range(len(c) - 1, -1, -1):
+                if c[i] == ">" and not (i > 0 and c[i - 1] in "-="):
+                    d += 1
+                elif c[i] == "<":
+                    d -= 1
+                    if d == 0:
+                        cut = i
+                        break
+            if cut is not None and c[:cut].endswith("::") and re.search(r"::\w+::$", c[:cut]):
+                c = c[:cut - 2]
+            else:
+                break
         cs = ctor_strip_generics(c)
         # <A as Trait>::method   /  <A as Trait<B>>::method
         m = re.match(r"^<(.+?) as (.+?)>::(\w+)$", c)
@@ -588,6 +606,10 @@ class Executor:
                 t = strip_mod(t).lstrip("&")
                 t = re.sub(r"^mut", "", t)
                 return re.sub(r"<.*$", "", t)
+            if not args:
+                z = [f for f in cands if not f.args and base(norm_ty(f.ret)) == base(selfty)]
+                if len(z) == 1:
+                    return z[0]
             for f in cands:
                 if not f.args:
                     continue
@@ -646,8 +668,9 @@ class Executor:
         return None
 
     # ------------------------------------------------------------------ execution
-    def call_fn(self, st, fn, args, generics=None):
-        """Run `fn` to completion from `st` (all arms), merge, return (state, retval)."""
+    def call_fn(self, st, fn, args, generics=None, collect=False):
+        """Run `fn` to completion from `st` (all arms), merge, return (state, retval).
+        collect=True: do not merge the returning arms; return [(state, retval), ...]."""
         self.stats["calls"] += 1
         self.stats["fns"].add(fn.name)
         depth = len(st.frames)
@@ -738,7 +761,7 @@ class Executor:
                                 s2.pc.append(cond)
                             f2 = s2.frames[depth]
                             f2.block, f2.idx = b, 0
-                            if b in heads:
+                            if b in heads and not getattr(self, "no_loop_merge", False):
                                 parked.setdefault(b, []).append(s2)
                             else:
                                 active.append(s2)
@@ -794,6 +817,12 @@ class Executor:
                     break
                 else:
                     raise Unsupported("statement %r in %s bb%d" % (stt[:2], fn.name, f.block))
+        if collect:
+            out = []
+            for s in returned:
+                fr = s.frames.pop()
+                out.append((s, fr.locals.get(0, Agg("tuple", []))))
+            return out
         if not returned:
             raise AllPathsDiverge(fn.name)
         merged = merge_states(returned, self, at_return=True)
@@ -802,6 +831,8 @@ class Executor:
         s = merged[0]
         fr = s.frames.pop()
         rv = fr.locals.get(0, Agg("tuple", []))
+        if rv is POISON and fn.ret.strip() == "()":
+            rv = Agg("tuple", [])
         if rv is POISON:
             raise Unsupported("poison return value from " + fn.name)
         return s, rv
@@ -809,7 +840,7 @@ class Executor:
     def _jump(self, s, f, b, heads, others, parked):
         """set position; park at loop heads when other arms exist. Returns True if parked."""
         f.block, f.idx = b, 0
-        if b in heads and others():
+        if b in heads and others() and not getattr(self, "no_loop_merge", False):
             parked.setdefault(b, []).append(s)
             return True
         return False
@@ -859,7 +890,9 @@ def merge_values(cvs, strict=False):
     if all(isinstance(v, Agg) for v in vals):
         if all(v.kind == v0.kind and len(v.fields) == len(v0.fields) for v in vals) and not v0.kind.startswith("iter"):
             return Agg(v0.kind, [merge_values([(c, v.fields[i]) for c, v in cvs], strict) for i in range(len(v0.fields))])
-        if strict and all(v.kind.startswith("iter") or v.kind == "vec" for v in vals):
+        if strict and all(v.kind.startswith("iter") or v.kind in ("vec", "log", "monitor") for v in vals):
+            raise NoMerge()
+        if any(v.kind in ("log", "monitor") for v in vals):
             raise NoMerge()
         return POISON
     if all(isinstance(v, Enum) for v in vals):
